@@ -3,7 +3,7 @@
     buffer and hold for both; the statements below are specific to the comparison. *)
 From Coq Require Import ZArith List Lia.
 From OW Require Import Arrays.IntOps Arrays.View Arrays.Ops Arrays.IndexProofs Arrays.AffineProofs
-  Arrays.ContigProofs Arrays.MemProofs Arrays.ReshapeProofs.
+  Arrays.ContigProofs Arrays.MemProofs Arrays.ReshapeProofs Arrays.Exec Arrays.HistoryProofs.
 Import ListNotations.
 Local Open Scope Z_scope.
 
@@ -34,6 +34,18 @@ Theorem C03_go_c_reads_equal : forall (V : Type) (h1 h2 : @heap V) c g b rd v i,
   get h1 (mkArr c (GoImpl g)) i = get h2 (mkArr c (CImpl b)) i.
 Proof. exact (@go_c_get_equal). Qed.
 Print Assumptions C03_go_c_reads_equal.
+
+(** along ANY operation history (any length, any operations, any arguments) that the model
+    executes, no buffer is removed or resized: every array stays well-formed, so every
+    in-bounds access through it still succeeds inside its buffer afterwards *)
+Theorem C03_any_history_preserves_storage : forall ops s s' a rd v,
+  exec_all s ops = Some s' -> wf_arr (sheap s) a rd v -> wf_arr (sheap s') a rd v.
+Proof. exact history_preserves_storage. Qed.
+Theorem C03_access_after_any_history : forall ops s s' a rd v i,
+  exec_all s ops = Some s' -> wf_arr (sheap s) a rd v -> valid_idx (adims v) i ->
+  (exists x, get (sheap s') a i = Some x) /\ (forall x, exists h', set (sheap s') a i x = Some h').
+Proof. exact access_after_any_history. Qed.
+Print Assumptions C03_access_after_any_history.
 
 (** NOT proved (C03_entry_point_partial): equality of whole operation histories on the two
     back-ends and of the exported C entry point (RunSingleModel) with the Go API are
